@@ -1799,8 +1799,15 @@ def m_copy(ctx, args, kw):
 @model(_copy_mod.deepcopy)
 def m_deepcopy(ctx, args, kw):
     v = args[0]
-    ctx.assumed.add("copy.deepcopy: structural copy sharing no mutable object with the original")
-    return ctx.world.verifier.snapshot(ctx, v) if hasattr(ctx.world, "verifier") else NotImplemented
+    ctx.assumed.add("copy.deepcopy: structural copy sharing no mutable object with the original (objects listed in the memo argument are shared, as in CPython)")
+    memo = {}
+    m = args[1] if len(args) > 1 else kw.get("memo")
+    if isinstance(m, Ref) and isinstance(ctx.cell(m), HDict):
+        # deepcopy(x, memo): an object whose id() is a key of memo is replaced by the memo's value instead of being copied
+        for k, target in ctx.cell(m).d.items():
+            if isinstance(k, int):
+                memo[k] = target
+    return ctx.world.verifier.snapshot(ctx, v, memo) if hasattr(ctx.world, "verifier") else NotImplemented
 
 
 import inspect as _inspect_mod
